@@ -20,10 +20,11 @@ CONSTANTS TopTypes,   \* declared types enumerated
           DevOn,      \* set of named deviations (known defects of the code) switched on
           Salt,       \* rotates the value / address-constant tables
           Prune,      \* generate only token sequences that begin a valid initializer
-          EmitCases   \* print VCASE lines for the harness
+          EmitCases,  \* print VCASE lines for the harness
+          FormsOn     \* declaration forms generated (see DeclForms)
 
-VARIABLES top, toks, p, pc
-vars == <<top, toks, p, pc>>
+VARIABLES top, form, toks, p, pc
+vars == <<top, form, toks, p, pc>>
 
 Dev(d) == d \in DevOn
 Max2(a, b) == IF a < b THEN b ELSE a
@@ -39,6 +40,9 @@ BF(n, t, o, b, a) == [name |-> n, ty |-> t, off |-> o, before |-> b, after |-> a
 Sc(sz) == [kind |-> "int", size |-> sz, align |-> sz]
 Arr(b, n, sz, al) == [kind |-> "arr", size |-> sz, align |-> al, base |-> b, n |-> n]
 St(k, sz, al, ms) == [kind |-> k, size |-> sz, align |-> al, mems |-> ms]
+\* pre: unnamed bit-fields (C text) declared before member number `at`; like cproc's member list, mems holds named
+\* members only (6.7.9p9: unnamed members take no part in initialization)
+StU(k, sz, al, ms, pre) == [kind |-> k, size |-> sz, align |-> al, mems |-> ms, pre |-> pre]
 
 Ty == [
   char  |-> Sc(1),
@@ -56,6 +60,18 @@ Ty == [
   UD    |-> St("union", 8, 8, <<M("d", "double", 0), M("i", "int", 0), M("f", "float", 0)>>),
   AI3   |-> Arr("int", 3, 12, 4),
   AIX   |-> Arr("int", 0, 0, 4),          \* int []
+  AI1   |-> Arr("int", 1, 4, 4),          \* what a shared typedef'd int[] has become after `A x0 = {0};` ...
+  AI5   |-> Arr("int", 5, 20, 4),         \* ... after `A x0 = {0, 0, 0, 0, 0};`
+  AC1   |-> Arr("char", 1, 1, 1),
+  AC5   |-> Arr("char", 5, 5, 1),
+  AP1   |-> Arr("ptr", 1, 8, 8),
+  AP5   |-> Arr("ptr", 5, 40, 8),
+  \* struct UB1 { int :32; int x; int y; }  struct UB2 { long long :64; char c; }  struct UB3 { unsigned :3; unsigned x:5; int y; }
+  UB1   |-> StU("struct", 12, 4, <<M("x", "int", 4), M("y", "int", 8)>>, <<[at |-> 1, c |-> "int :32;"]>>),
+  UB2   |-> StU("struct", 9, 1, <<M("c", "char", 8)>>, <<[at |-> 1, c |-> "long long :64;"]>>),
+  \* struct SAL { char c; _Alignas(short[2]) char d; char e; }   (alignment taken from a type name whose size differs from it)
+  SAL   |-> StU("struct", 4, 2, <<M("c", "char", 0), M("d", "char", 2), M("e", "char", 3)>>, <<[at |-> 2, c |-> "_Alignas(short[2])"]>>),
+  UB3   |-> StU("struct", 8, 4, <<BF("x", "uint", 0, 3, 24), M("y", "int", 4)>>, <<[at |-> 1, c |-> "unsigned :3;"]>>),
   AW2   |-> Arr("int", 2, 8, 4),          \* wchar_t [2]: L"pq" fills it exactly, the NUL is dropped
   MW    |-> Arr("AW2", 2, 16, 4),         \* wchar_t [2][2]
   AH2   |-> Arr("ushort", 2, 4, 2),       \* char16_t [2]: u"pq" fills it exactly
@@ -162,6 +178,29 @@ Flat(ss) == IF ss = <<>> THEN <<>> ELSE Head(ss) \o Flat(Tail(ss))
 StrBytes(id, n, w) ==
   LET d == Append(StrData(id), 0)
   IN Flat([k \in 1..n |-> LEBytes(IF k <= Len(d) THEN d[k] ELSE 0, w)])
+
+(* Declaration forms.  The object declared has type T in every form (6.2.7p3: the composite of T[n] and T[] is   *)
+(* T[n]; every declaration using a typedef name for T[] declares its own object of its own size), so the image  *)
+(* is Image(T, I) in every form.  What the implementation's parser is handed differs (deviations):              *)
+(*   redecl-extern  `extern T x[n]; T x[] = I;`      redecl-tent  `T x[n]; T x[] = I;`                          *)
+(*        decl.c takes typecomposite() = the NEW type, i.e. the incomplete one   (CompositeKeepsNew)             *)
+(*   shared-big / shared-small   `typedef T A[]; A x0 = {0,0,0,0,0} / {0}; A x = I;`                            *)
+(*        parseinit completes the typedef's type object in place, x sees T[5] / T[1]   (SharedIncompleteType)    *)
+(*   alignas   `_Alignas(int[4]) T x = I;`  same image, the definition is aligned to max(_Alignof(int[4]), T's)   *)
+IncOf(t) == IF t = "AI3" THEN "AIX" ELSE "ACX"
+BigOf(t) == CASE t = "AIX" -> "AI5" [] t = "ACX" -> "AC5" [] OTHER -> "AP5"
+SmallOf(t) == CASE t = "AIX" -> "AI1" [] t = "ACX" -> "AC1" [] OTHER -> "AP1"
+DeclForms(t) == ({"plain"} \cup (IF t \in {"AI3", "AC4"} THEN {"redecl-extern", "redecl-tent"} ELSE {})
+                          \cup (IF t \in {"AIX", "ACX", "APX"} THEN {"shared-big", "shared-small"} ELSE {})
+                          \cup (IF t \in {"AC4", "SC"} THEN {"alignas"} ELSE {})) \cap FormsOn
+DeclAlign(t, f) == IF f = "alignas" THEN Max2(Ty["int"].align, Ty[t].align) ELSE Ty[t].align
+FormDev(f) == CASE f \in {"redecl-extern", "redecl-tent"} -> "CompositeKeepsNew"
+                [] f \in {"shared-big", "shared-small"} -> "SharedIncompleteType"
+                [] OTHER -> ""
+\* the type the parser of the implementation works on
+MTopOf(t, f) == IF FormDev(f) = "" \/ ~Dev(FormDev(f)) THEN t
+                ELSE CASE f = "shared-big" -> BigOf(t) [] f = "shared-small" -> SmallOf(t) [] OTHER -> IncOf(t)
+MTop == MTopOf(top, form)
 
 (* ====================================================================== *)
 (* Part 2: declarative image.                                              *)
@@ -476,7 +515,7 @@ FocusOp(q) ==
   IN CASE Kind(t) = "arr" ->
             LET b == Ty[t].base
             IN SubObj([SetU(q, s, UIdx(0)) EXCEPT !.tsz = IF IncI(q, t) THEN Ty[b].size ELSE @], b, 0)
-       [] IsSU(t) -> SubObj(SetU(q, s, UMem(1)), Ty[t].mems[1].ty, 0)
+       [] IsSU(t) -> SubObj(SetU(q, s, UMem(1)), Ty[t].mems[1].ty, Ty[t].mems[1].off)   \* own offset: fix 7f4acb8 (was 0)
        [] OTHER -> Fail(q, "err")                   \* fatal("internal error: init cursor has unexpected type")
 
 \* advance(p)
@@ -564,8 +603,9 @@ P0(T) == [obj |-> <<[off |-> 0, ty |-> T, u |-> UG, iscur |-> FALSE]>>, cur |-> 
           list |-> <<>>, last |-> 0, tsz |-> 0, inc |-> IsIncT(T), indes |-> FALSE, fired |-> {}, tr |-> {}, st |-> "run"]
 
 Init == /\ top \in TopTypes
+        /\ form \in DeclForms(top)
         /\ toks = <<>>
-        /\ p = P0(top)
+        /\ p = [P0(MTopOf(top, form)) EXCEPT !.fired = IF MTopOf(top, form) # top THEN {FormDev(form)} ELSE {}]
         /\ pc = "head"
 
 CurTok == toks[Len(toks)]
@@ -573,7 +613,7 @@ CurTok == toks[Len(toks)]
 Goto(q, l, act) ==
   /\ p' = [q EXCEPT !.tr = @ \cup {act}]
   /\ pc' = IF q.st = "run" THEN l ELSE q.st
-  /\ UNCHANGED <<top, toks>>
+  /\ UNCHANGED <<top, form, toks>>
 
 (* read the next token; at the loop head of parseinit, or after an initializer (",", "}") *)
 Read(tk) ==
@@ -581,7 +621,7 @@ Read(tk) ==
   /\ Len(toks) < MaxTok
   /\ Prune => Viable(top, Append(toks, tk))
   /\ toks' = Append(toks, tk)
-  /\ UNCHANGED top
+  /\ UNCHANGED <<top, form>>
   /\ p' = [p EXCEPT !.tr = @ \cup {"Read"}]
   /\ pc' = IF pc = "after" /\ tk.k = "}" THEN "close"
            ELSE IF p.cur = 0 THEN "item"
@@ -842,7 +882,7 @@ TypeOK == /\ pc \in {"head", "after", "close", "des", "adv", "foc", "item", "exp
           /\ p.st \in {"run", "done", "err", "undef"}
           /\ Len(toks) <= MaxTok
 
-ObjSize == IF IsIncT(top) THEN p.tsz ELSE Ty[top].size
+ObjSize == IF IsIncT(MTop) THEN p.tsz ELSE Ty[MTop].size
 RelSeq(R) == LET S == {r.off : r \in R}
                  RECURSIVE Ord(_)
                  Ord(X) == IF X = {} THEN <<>> ELSE LET m == CHOOSE x \in X : \A y \in X : x <= y IN <<m>> \o Ord(X \ {m})
@@ -920,7 +960,7 @@ Emit ==
                                      IN d(0) + 2*d(1) + 4*d(2) + 8*d(3) + 16*d(4) + 32*d(5) + 64*d(6) + 128*d(7)]
           same == v.alt = v.img
       IN PrintT("VCASE " \o ToJson([
-           ty |-> top, toks |-> [i \in 1..Len(Completed) |-> TokStr(Completed[i])], size |-> v.size,
+           ty |-> top, form |-> form, al |-> DeclAlign(top, form), toks |-> [i \in 1..Len(Completed) |-> TokStr(Completed[i])], size |-> v.size,
            img |-> ib, rel |-> RelOut(v.img.rel \cap v.alt.rel),
            unc |-> IF same THEN <<>> ELSE um,
            optrel |-> IF same THEN <<>> ELSE RelOut((v.img.rel \cup v.alt.rel) \ (v.img.rel \cap v.alt.rel)),
